@@ -289,6 +289,11 @@ def run(ctx):
                 ctx.violation("impl_violation", cc, expected="the calls complete with a thread pool attached as they do without one",
                               observed=status, theorem="C02_schedule_independent", signature={"site": site_sig, "what": "crash-or-hang"},
                               note="the same case completes with no pool; last lines: " + " | ".join(ls[-4:]))
+            elif (r0 and "MUJOCO ERROR" in status and "MUJOCO ERROR" in r0[0][0]
+                  and "mj_stackAlloc: out of memory" in status and "mj_stackAlloc: out of memory" in r0[0][0]):
+                # the generated model does not fit its arena (e.g. PGS needs nefc^2 numbers): the engine reports the same
+                # error through mju_error with and without a pool, which is the same observable behaviour - not judged
+                stats["arena_exhausted_same_without_pool"] = stats.get("arena_exhausted_same_without_pool", 0) + 1
             else:
                 ctx.broken.append(("harness", "driver c02_par failed on a case even without a pool", "%s %s" % (cc, status)))
             return
